@@ -12,7 +12,7 @@ from simkit.universe import Universe, kind_of
 PROPERTY = "C18"
 ENGINE = "threads"
 LEVEL = "exploration"
-BUDGET = {"quick": (6000, 60), "thorough": (400000, 540)}
+BUDGET = {"quick": (15000, 60), "thorough": (400000, 540)}
 RULE = ("seeded scenarios: acyclic include graph over 1-4 resource files (single, chain, fan, diamond, "
         "shared leaf, missing / unparsable leaf, missing root) reached through file: URLs (real "
         "urllib) or sim: URLs (scripted fetch faults), cache pre-state per URL (empty, warm, stale, "
@@ -570,6 +570,176 @@ def run_script(case, mode, forced=None):
     return hist
 
 
+# ---------------------------------------------------------------------------------- reference model
+CACHE_AGE_S = 86400
+
+
+class Model(object):
+    """A small executable reference model of the loader under the sequential schedule: two result
+    tables (terminologies, templates), one cache directory shared by both (entry = content tag +
+    mtime), the sources, the clock.  It predicts, for every load / t_load of a script, None or the
+    set of resource versions the returned document must be made of.  Independent of the library:
+    it is written from the statement ('a fully resolved document ..., or None if it cannot be
+    fetched or parsed', cache warm / stale / refresh) and from the scenario the harness built."""
+
+    def __init__(self, case):
+        scen = case["scenario"]
+        self.nodes = scen["nodes"]
+        self.now = seams.EPOCH0
+        self.cache = {}
+        self.src = {}
+        self.T = {}
+        self.TP = {}
+        self.reload = False
+        for n, node in self.nodes.items():
+            state = scen["cache"][n]
+            kind = node["kind"]
+            gone = "source-missing" in state
+            if node["scheme"] == "file":
+                present = (kind == "ok" or kind.startswith("bad:")) and not gone
+                if not present or kind == "bad:nonutf8":       # undecodable body: the fetch fails
+                    self.src[n] = None
+                elif kind == "ok":
+                    self.src[n] = ("ok", "-new" if state == "warm+source-changed" else "")
+                else:
+                    self.src[n] = (kind[4:],)                    # text / version1 / empty
+            else:
+                if gone or kind in ("missing", "simfault:urlerror", "simfault:read-raises",
+                                    "simfault:nonutf8"):
+                    self.src[n] = None
+                elif kind == "simfault:notxml":
+                    self.src[n] = ("notxml",)
+                else:
+                    self.src[n] = ("ok", "")
+            if state != "empty" and kind == "ok":
+                age = 3600 if state.startswith("warm") else 2 * 86400
+                self.cache[n] = (("ok", ""), self.now - age)
+
+    def cache_load(self, n, reload):
+        ent = self.cache.get(n)
+        if ent is None or reload or ent[1] < self.now - CACHE_AGE_S:
+            if self.src.get(n) is None:
+                return None                  # failed fetch: nothing cached, nothing overwritten
+            ent = (self.src[n], self.now)
+            self.cache[n] = ent
+        return ent[0]
+
+    def _resolve_includes(self, n, own):
+        marks = set([own])
+        for m in self.nodes[n]["includes"]:
+            sub = self.term(m)
+            if sub is None:
+                return None
+            marks |= sub
+        return marks
+
+    def term(self, n):
+        """Terminologies.load under the sequential schedule."""
+        if n not in self.nodes:
+            return None
+        if n in self.T:
+            return self.T[n]
+        tag = self.cache_load(n, self.reload)
+        if tag is None:
+            return None                      # not fetched: nothing is remembered
+        doc = None
+        if tag[0] == "ok":
+            doc = self._resolve_includes(n, n + tag[1])
+        self.T[n] = doc                      # parsed or not: the answer stays until refresh
+        return doc
+
+    def templ(self, n):
+        """TemplateHandler.load: own table, shared cache directory, includes through terminologies."""
+        if n not in self.nodes:
+            return None
+        if n in self.TP:
+            return self.TP[n]
+        tag = self.cache_load(n, False)
+        if tag is None or tag[0] != "ok":
+            return None
+        doc = self._resolve_includes(n, n + tag[1])
+        if doc is not None:
+            self.TP[n] = doc
+        return doc
+
+    def run(self, script):
+        """Expected outcome per call: None (no expectation), 'none', or a frozenset of markers."""
+        out = []
+        for op in script:
+            name = op[0]
+            n = op[1] if len(op) > 1 else None
+            exp = None
+            if name in ("load", "deferred_load", "include", "repository"):
+                res = self.term(n)
+                if name == "load":
+                    exp = "none" if res is None else frozenset(res)
+            elif name in ("t_load", "t_deferred_load"):
+                res = self.templ(n)
+                if name == "t_load":
+                    exp = "none" if res is None else frozenset(res)
+            elif name == "refresh":
+                self.reload = True
+                self.T.clear()
+                self.term(n)
+                self.reload = False
+            elif name == "advance":
+                self.now += 2 * 86400
+            out.append(exp)
+        final = {}
+        for n in sorted(self.nodes):
+            res = self.term(n)
+            final[n] = "none" if res is None else frozenset(res)
+        return out, final
+
+
+def markers_of(summary):
+    """Resource versions a returned document is made of: the values of its p_<name> Properties."""
+    if summary is None or "none" in summary:
+        return "none"
+    marks = set()
+
+    def walk(t):
+        nm = t.get("name")
+        if t.get("k") == "prop" and nm and str(nm[1]).startswith("p_"):
+            for v in t.get("values", []):
+                marks.add(v[1])
+        for c in t.get("secs", []) + t.get("props", []):
+            walk(c)
+    walk(summary["tree"])
+    return frozenset(marks)
+
+
+def judge_model(case, ref):
+    """The sequential reference execution against the model (schedule independent)."""
+    shape = case["scenario"]["shape"]
+    exp_calls, exp_final = Model(case).run(case["script"])
+
+    def vio(call, what, msg, step=0):
+        labels = [shape, what]
+        return {"monitor": "load.matches-model", "labels": labels, "message": msg, "step": step,
+                "signature": signature("load.matches-model", call, labels)}
+
+    def describe(x):
+        return "None" if x == "none" else "a document made of %s" % sorted(x)
+    for i, (call, exp) in enumerate(zip(ref["calls"], exp_calls)):
+        if exp is None or call["outcome"][0] != "ret":
+            continue
+        got = markers_of(call["outcome"][1])
+        if got != exp:
+            what = "none-mismatch" if "none" in (got, exp) else "content"
+            return vio(call["op"][0], what, "%s(%s) returned %s, the model expects %s" %
+                       (call["op"][0], call["op"][1], describe(got), describe(exp)), i)
+    for n, res in sorted(ref["final_loads"].items()):
+        if res[0] != "ret":
+            continue
+        got = markers_of(res[1])
+        if got != exp_final[n]:
+            what = "none-mismatch" if "none" in (got, exp_final[n]) else "content"
+            return vio("load", what, "load(%s) at quiescence returned %s, the model expects %s" %
+                       (n, describe(got), describe(exp_final[n])))
+    return None
+
+
 NO_RAISE_CALLS = ("load", "deferred_load", "refresh", "repository", "t_load", "t_deferred_load")
 
 
@@ -688,6 +858,8 @@ def run_case(case, forced=None):
     res = Result(case)
     ref = run_script(case, "sequential")
     vio = judge(case, ref, None, False)
+    if vio is None:
+        vio = judge_model(case, ref)
     ref_invalid = vio is not None
     if vio is not None:
         vio["labels"] = vio["labels"] + ["sequential"]
